@@ -111,12 +111,19 @@ class Net:
         return [idx.get(id(o), -1) for o in self.hw.allLeaves() if o.isPropagatable()]
 
     def get_simulator(self):
-        """('ok', [leaf indices of Simulator.propagatables]) | ('raise', message)"""
+        """('ok', [leaf indices of Simulator.propagatables]) | ('raise', message, kind, leaf) with kind 'limit' (pass limit),
+        'loop' (a leaf drives its own input; leaf = index of the leaf named in the message) or 'other'"""
         try:
             with quiet():
                 sim = self.hw.getSimulator()
-        except Exception as ex:             # the documented refusal is a bare Exception('Excessive loop count ...')
-            return ('raise', '%s: %s' % (type(ex).__name__, ex))
+        except Exception as ex:             # the documented refusals are bare Exceptions with these messages
+            msg = '%s: %s' % (type(ex).__name__, ex); text = str(ex)
+            if type(ex) is Exception and 'Excessive loop count' in text: return ('raise', msg, 'limit', None)
+            if type(ex) is Exception and text.startswith('Combinational loop: ') and ' drives one of its own inputs' in text:
+                path = text[len('Combinational loop: '):text.index(' drives one of its own inputs')]
+                named = [i for i, o in enumerate(self.leaves()) if o.getFullPath() == path]
+                return ('raise', msg, 'loop', named[0] if len(named) == 1 else -1)
+            return ('raise', msg, 'other', None)
         self.sim = sim
         idx = {id(o): i for i, o in enumerate(self.leaves())}
         return ('ok', [idx.get(id(o), -1) for o in sim.propagatables])
